@@ -495,7 +495,7 @@ func main() {
 	r.Set("max_depth", max(rl.MaxDepth, rr.MaxDepth))
 	r.Set("list", fmt.Sprintf("handles=%d states=%d transitions=%d depth=%d fixpoint=%v", H, rl.States, rl.Transitions, rl.MaxDepth, rl.Exhaustive))
 	r.Set("ring", fmt.Sprintf("cells=%d states=%d transitions=%d depth=%d fixpoint=%v", N, rr.States, rr.Transitions, rr.MaxDepth, rr.Exhaustive))
-	r.Set("rule", "explicit-state BFS to fixpoint, the fork and the standard library driven in lock-step through parallel handle tables. Lists: a zero-value list and a New() list, a table of H element handles (live in either list, removed, zombie after Init; removed handles can be forgotten so histories are unbounded), every operation over every handle / handle pair / list pair incl. self; compared after every call: returned handle, Len, Front/Back, forward and backward traversal with identities, Next/Prev/Value of every handle. Rings: up to N cells from NewRing(0..3) and zero-value Rings, the nil ring; Next, Prev, Move(-3..3), Link for every pair incl. r==s and nil, Unlink(-1..N+1), Len, Do")
+	r.Set("rule", "explicit-state BFS to fixpoint, the fork and the standard library driven in lock-step through parallel handle tables. Lists: a zero-value list and a New() list, a table of H element handles (live in either list, removed, zombie after Init; removed handles can be forgotten so histories are unbounded), every operation over every handle / handle pair / list pair incl. self; compared after every call: returned handle, Len, Front/Back, forward and backward traversal with identities, Next/Prev/Value of every handle. Rings: up to N cells from NewRing(0..3) and zero-value Rings, the nil ring; Next, Prev, Move(-3..3), Link for every pair incl. r==s and nil, Unlink(-1..N+1), Len, Do PLUS deterministic families beyond the exhaustive bound (large sizes, every single/double removal from trees built in 7 orders, long one-instance churn histories): see the *_family_* counters")
 	r.Finish()
 }
 
